@@ -50,7 +50,9 @@ def build_obj(h, lst, variant, path, hdr=(), salt=0, nov=False, quote=False):
     """hdr: header-only sections (only a parsed file can have them): `[A]` lines placed at section
     boundaries chosen by `salt` (after the group-less keys, between two sections, at the end)."""
     s = []
-    if (variant == 3 and parseable(lst) and lst) or hdr or nov:
+    # (variant 3 with nothing to hold: an object PARSED from a file without any entry - it has no entry array at all, unlike the
+    # empty objects the constructors make)
+    if (variant == 3 and parseable(lst)) or hdr or nov:
         assert parseable(lst)
         lines = []
         cur = []
@@ -73,7 +75,7 @@ def build_obj(h, lst, variant, path, hdr=(), salt=0, nov=False, quote=False):
         for n, g in enumerate(sorted(hdr)):
             bounds = [i for i, ln in enumerate(lines) if ln.startswith(b"[")] + [len(lines)]
             lines.insert(bounds[(salt + n) % len(bounds)], b"[" + bytes(g) + b"]")
-        s.append("file %s %s" % (hx(path), hx(b"\n".join(lines) + b"\n")))
+        s.append("file %s %s" % (hx(path), hx(b"\n".join(lines) + b"\n" if lines else b"# nothing in here\n")))
         s.append("readfile %d %s x3d x23" % (h, hx(path)))
         return s
     if variant == 0 or variant == 3:
